@@ -271,10 +271,13 @@ def translate(hist, obs, ext=False):
         if k == "pod_put":
             s = op["pod"]
             specs[(s["Ns"], s["Name"])] = s
-            t = "(PEnv (EPodPut %s))" % cpod(s)
+            t = "(PEnv (EPodPut %s))" % cpod(s, ips=[s2ip(x) for x in s.get("PreIps") or []])
             out = "ROk"
         elif k == "pod_delete":
             t = "(PEnv (EPodDelete %s))" % cpk(op["ns"], op["name"])
+        elif k == "pod_terminating":
+            prev = d
+            continue              # a deletion timestamp changes nothing for galaxy-ipam: the pod is alive until its object is gone
         elif k == "pod_phase":
             t = "(PEnv (EPodPhase %s %s))" % (cpk(op["ns"], op["name"]), cN(op["phase"]))
         elif k == "informer":
@@ -468,6 +471,34 @@ def translate(hist, obs, ext=False):
                 t1w = "(P2 %s)" % t1w
             terms.append("(" + t1w + ", " + out1w + ", " + "(Some " + cwdump(d) + ")" + ")")
             meta.append((k, len(terms) - 1, t1))
+            prev = d
+            continue
+        elif k == "filter_race":
+            # two Filter requests issued concurrently for pods sharing a pool: both hold the pool mutex from counting to allocating,
+            # so the run is the first followed by the second - unless they overlapped, which no sequential model step describes
+            if o.get("second_during_first"):
+                return clist(terms), len(terms), "concurrent-sections-overlapped", meta
+            w2 = [c for c in calls if c[0] in ("create", "get")]
+            outs = []
+            for j, nm in enumerate(op["pods"]):
+                sp = specs.get((op["ns"], nm))
+                if sp is None:
+                    return clist(terms), len(terms), "unknown-pod", meta
+                nodes_j = o.get("nodes_a" if j == 0 else "nodes_b") or []
+                err_j = o.get("err_a" if j == 0 else "err_b")
+                ch = None
+                if nodes_j and w2:
+                    ch = s2ip(w2.pop(0)[1])
+                tj = "(PFilter %s %s %s %s)" % (cpk(op["ns"], nm), clist(cstr(n) for n in op["nodes"]), coracle(None, ch), cfaults())
+                oj = "(RNodes %s)" % clist(cstr(n) for n in nodes_j) if not err_j else "RErr"
+                if ext:
+                    tj, oj = "(P1 %s)" % tj, "(R1 %s)" % oj
+                if ext == 3:
+                    tj = "(P2 %s)" % tj
+                outs.append((tj, oj))
+            terms.append("(" + outs[0][0] + ", " + outs[0][1] + ", None)")
+            terms.append("(" + outs[1][0] + ", " + outs[1][1] + ", (Some " + cwdump(d) + "))")
+            meta.append((k, len(terms) - 1, outs[1][0]))
             prev = d
             continue
         elif k == "api_pool":
